@@ -18,9 +18,12 @@ func SpawnJob(start func(), shutdown func()) RunningJob {
 	closed := make(chan struct{})
 	go func() {
 		<-stop
+		verifPoint("job.stopRequested")
 		shutdown()
+		verifPoint("job.afterShutdown")
 		close(closed)
 	}()
+	start = verifWrapStart(start)
 	go start()
 	return RunningJob{stop: stop, closed: closed}
 }
